@@ -2,7 +2,7 @@
     Statements only; proofs live in Html/ScriptProofs.v. [esc] is the (arbitrary) table of
     characters Rust's Debug formatting writes as \u{..}. *)
 From Coq Require Import List NArith ZArith.
-From LV Require Import Base.Sexp Html.Script Html.ScriptProofs.
+From LV Require Import Base.Sexp Base.Bytes Html.Script Html.ScriptProofs.
 Import ListNotations.
 Open Scope N_scope.
 
@@ -13,6 +13,22 @@ Theorem C12_payload_roundtrip :
   forall esc s rest, Forall scalar s -> js_read (js_string esc s ++ rest) = Some (s, rest).
 Proof. exact payload_roundtrip. Qed.
 Print Assumptions C12_payload_roundtrip.
+
+(** binary encodings (Encoded = Vec<u8>): any byte buffer, turned into a string by
+    IntoEncodedString (base64, STANDARD_NO_PAD), is turned back into exactly that buffer by
+    FromEncodedStr ... *)
+Theorem C12_binary_payload_roundtrip :
+  forall l, all_bytes l = true -> bytes_from_encoded_str (bytes_to_encoded_string l) = Some l.
+Proof. exact binary_payload_roundtrip. Qed.
+Print Assumptions C12_binary_payload_roundtrip.
+
+(** ... also after travelling as a JavaScript string literal in the hydration script *)
+Theorem C12_binary_payload_delivered :
+  forall esc l rest, all_bytes l = true ->
+  exists s, js_read (js_string esc (bytes_to_encoded_string l) ++ rest) = Some (s, rest)
+            /\ bytes_from_encoded_str s = Some l.
+Proof. exact binary_payload_delivered. Qed.
+Print Assumptions C12_binary_payload_delivered.
 
 (** for all payloads, error messages, ids, modes, commands (incl. real resource creation) and
     completion orders: no chunk the pending_data() stream emits contains '<' ... *)
